@@ -13,7 +13,10 @@ Model: `Model/C23.lean` (byte lists; every Go slice expression is a checked oper
 (`Codec`); a message is its type name plus its payload bytes.  Tie: differential run of the real
 ProtoSerializer / Metadata / readProtoFrame / Client.unmarshalProtoResponse / ProtoServer.handleConn
 / FramePool against the model (tools/props/c23.py), and the constants `defaultMaxFrameSize`,
-`minBucketShift`, `maxBucketShift`, `numBuckets` regenerated from the source (`Gen.C23`).
+`minBucketShift`, `maxBucketShift`, `numBuckets` regenerated from the source (`Gen.C23`).  Every length /
+bound condition of the decoders is regenerated as well (go2lean `if_cond`) and proved equal to the named
+condition the model branches on (`Lemmas/C23Gen.lean`, theorems `gen_*`): editing a bound in the Go source
+breaks a proof obligation, not only the differential.
 
 Result: the full statement holds (`C23_holds`).  History: finding C23-F1 — the client's format
 heuristic required `nameLen < 256` and handed metadata-format frames with longer type names to the
@@ -22,6 +25,7 @@ conjunct and the refutation became the regression theorem `client_long_name_ok`.
 -/
 import GoaktVerif.Lemmas.C23Frame
 import GoaktVerif.Lemmas.C23Pool
+import GoaktVerif.Lemmas.C23Gen
 import GoaktVerif.Gen.C23
 
 namespace GoaktVerif.C23
